@@ -14,13 +14,15 @@ def keyLt : Key → Key → Bool
   | _ :: _, [] => false
   | a :: as, b :: bs => if a < b then true else if b < a then false else keyLt as bs
 
-/-- `BTreeMap::insert`: sorted, a later entry for the same key replaces the earlier one. -/
-def vsInsert {α : Type} (kv : KV α) : List (KV α) → List (KV α)
+/-- position of a new key in the sorted map -/
+def insertSorted {α : Type} (kv : KV α) : List (KV α) → List (KV α)
   | [] => [kv]
-  | x :: rest =>
-    if kv.key = x.key then kv :: rest
-    else if keyLt kv.key x.key then kv :: x :: rest
-    else x :: vsInsert kv rest
+  | x :: rest => if keyLt kv.key x.key then kv :: x :: rest else x :: insertSorted kv rest
+
+/-- `BTreeMap::insert`: an entry for an existing key replaces it, a new key goes to its sorted place. -/
+def vsInsert {α : Type} (kv : KV α) (acc : List (KV α)) : List (KV α) :=
+  if acc.any (fun x => x.key = kv.key) then acc.map (fun x => if x.key = kv.key then kv else x)
+  else insertSorted kv acc
 
 /-- `leaf_updates.collect::<BTreeMap<_, _>>()` -/
 def valueSet {α : Type} (kvs : List (KV α)) : List (KV α) :=
@@ -39,25 +41,27 @@ inductive Ev where
 def Batch.events (b : Batch) : List Ev :=
   b.puts.map (fun (k, n) => Ev.put k n) ++ b.stale.map Ev.staleNode
 
+/-- `batch_put_value_set` up to the root node: how the recursion is entered.
+`rv` = the tier's `root_version`, `t` = its root node (`null` when `rv = none` or the root is `Null`). -/
+def putTierCore {α : Type} (H : List UInt8 → Hash) (version : Nat) (pfx : Path)
+    (rv : Option Nat) (t : Tree α) (kvs : List (KV α)) : Except Err (R α) :=
+  let fuel := fuelFor kvs
+  match rv with
+  | none => updateSubtree H version pfx fuel [] kvs
+  | some pv =>
+    match t with
+    | .null =>
+      -- `Node::Null` root: marked stale, then `batch_update_subtree` at depth 0
+      match updateSubtree H version pfx fuel [] kvs with
+      | .error e => .error e
+      | .ok r => .ok ⟨r.t, ({ stale := [(pv, pfx)] } : Batch) ++ r.b⟩
+    | _ => insertAt H version pfx fuel t [] kvs
+
 /-- `generate_tier_update_batch` (`batch_put_value_set`) + `apply_tier_update_batch`.
-`rv` = the tier's `root_version`, `t` = its root node (`null` when `rv = none` or the root is `Null`).
 Result: the new root (`none` = a `Null` root node was stored) and the events. -/
 def putTier {α : Type} (H : List UInt8 → Hash) (version : Nat) (pfx : Path)
     (rv : Option Nat) (t : Tree α) (updates : List (KV α)) : Except Err (Option (Tree α) × List Ev) :=
-  let kvs := valueSet updates
-  let fuel := fuelFor kvs
-  let r : Except Err (R α) :=
-    match rv with
-    | none => updateSubtree H version pfx fuel [] kvs
-    | some pv =>
-      match t with
-      | .null =>
-        -- `Node::Null` root: marked stale, then `batch_update_subtree` at depth 0
-        match updateSubtree H version pfx fuel [] kvs with
-        | .error e => .error e
-        | .ok r => .ok ⟨r.t, ({ stale := [(pv, pfx)] } : Batch) ++ r.b⟩
-      | _ => insertAt H version pfx fuel t [] kvs
-  match r with
+  match putTierCore H version pfx rv t (valueSet updates) with
   | .error e => .error e
   | .ok r =>
     match r.t with
